@@ -643,3 +643,53 @@ def rule_intidx(prog: Program, modules: Optional[Set[str]] = None) -> List[Insta
                                     f"`{short(t)}` covers numpy integers" if wide else
                                     f"`{short(t)}` tells an index from a slice by the builtin int only: a numpy integer index ({var} = np.int64(3)) is treated as a slice and fails on .start", fi.where(n)))
     return out
+
+
+# ---------------------------------------------------------------------------------------------
+# R-ANNOT: an unconditional assert that contradicts the parameter's own annotation
+# ---------------------------------------------------------------------------------------------
+def rule_assert_vs_annotation(prog: Program, modules: Optional[Set[str]] = None) -> List[Instance]:
+    """A parameter annotated `Union[A, B]` says callers may pass either. An unconditional
+    `assert isinstance(p, A)` at the top level of the same function contradicts that: one of the two is
+    wrong (Engler's contradiction rule). With B a sibling implementation the rest of the function
+    handles, the assert is a left-over that makes every B caller fail with a bare AssertionError."""
+    out: List[Instance] = []
+    for fi in prog.all_functions(modules):
+        anns = {}
+        for p in fi.params():
+            if p.annotation is None:
+                continue
+            a = p.annotation
+            members = None
+            if isinstance(a, ast.Subscript) and short(a.value).split(".")[-1] == "Union":
+                el = a.slice.elts if isinstance(a.slice, ast.Tuple) else [a.slice]
+                members = {short(e).split(".")[-1].strip('"\'') for e in el}
+            elif isinstance(a, ast.BinOp) and isinstance(a.op, ast.BitOr):
+                members = set()
+                stack = [a]
+                while stack:
+                    x = stack.pop()
+                    if isinstance(x, ast.BinOp) and isinstance(x.op, ast.BitOr):
+                        stack += [x.left, x.right]
+                    else:
+                        members.add(short(x).split(".")[-1].strip('"\''))
+            if members and len(members) >= 2 and "None" not in members:
+                anns[p.arg] = members
+        if not anns:
+            continue
+        for st in fi.body:
+            if not (isinstance(st, ast.Assert) and isinstance(st.test, ast.Call) and call_name(st.test) == "isinstance" and len(st.test.args) == 2 and isinstance(st.test.args[0], ast.Name)):
+                continue
+            pn = st.test.args[0].id
+            if pn not in anns:
+                continue
+            # the parameter must still hold the argument
+            if any(isinstance(x, ast.Assign) and any(isinstance(t, ast.Name) and t.id == pn for t in x.targets) and x.lineno < st.lineno for x in walk_own(fi.node)):
+                continue
+            ty = st.test.args[1]
+            allowed = {short(e).split(".")[-1] for e in (ty.elts if isinstance(ty, ast.Tuple) else [ty])}
+            excluded = sorted(m for m in anns[pn] if m not in allowed and m[:1].isupper())
+            out.append(Instance("R-ANNOT", f"{fi.qual}#assert:{pn}", BAD if excluded else OK,
+                                f"`{short(st, 60)}` rejects {excluded}, which the annotation of `{pn}` ({sorted(anns[pn])}) admits: callers passing it fail with a bare AssertionError (and pass unchecked under python -O)" if excluded
+                                else f"`{short(st, 50)}` agrees with the annotation of `{pn}`", fi.where(st)))
+    return out
